@@ -61,6 +61,8 @@ struct Cluster {
     cbs: u64,
     mcbs: u64,
     log_level: Option<String>,
+    /// virtual start-up delay of the k-th forked worker (exec, allocator and TLS start-up of a real process)
+    boot_delays: Vec<u64>,
 }
 
 pub const FAKE_PID_BASE: i32 = 4_200_000;
@@ -119,6 +121,8 @@ fn on_fork() -> Option<libc::pid_t> {
         sys::close(scm);
     });
     let proc_id = unsafe { (*wp).procs.len() - 1 };
+    let delay = c.boot_delays.get(idx as usize).copied().unwrap_or(0);
+    { let w: &mut World = unsafe { &mut *wp }; w.procs[proc_id].start_at = w.now + delay; }
     exits.lock().unwrap()[slot].proc_id = proc_id;
     unsafe { (*wp).tr(0xF0, idx as u64); }
     c.handles.push(handle);
@@ -209,9 +213,12 @@ pub struct ClusterKnobs {
     /// `worker_automatic_restart` of the main process
     #[serde(default)]
     pub automatic_restart: bool,
+    /// virtual start-up delay of the k-th forked worker, ns (missing = 0)
+    #[serde(default)]
+    pub boot_delays: Vec<u64>,
 }
 impl Default for ClusterKnobs {
-    fn default() -> Self { ClusterKnobs { worker: Knobs::default(), worker_timeout: 10, workers: 1, automatic_restart: false } }
+    fn default() -> Self { ClusterKnobs { worker: Knobs::default(), worker_timeout: 10, workers: 1, automatic_restart: false, boot_delays: vec![] } }
 }
 
 pub fn cluster_config(k: &ClusterKnobs) -> Config {
@@ -272,6 +279,7 @@ static CTR: std::sync::atomic::AtomicU64 = std::sync::atomic::AtomicU64::new(0);
 pub fn run_cluster(world: &mut Box<World>, knobs: &ClusterKnobs, setup: impl FnOnce(&mut World, &ClusterEnv)) -> ClusterEnd {
     World::install(world);
     world.procs[0].name = "hub".into();
+    world.reuseport = true;
     let mut end = ClusterEnd::default();
     let n = CTR.fetch_add(1, Ordering::SeqCst);
     let sock_name = format!("clustersim/{}.{}", sys::getpid(), n).into_bytes();
@@ -287,7 +295,7 @@ pub fn run_cluster(world: &mut Box<World>, knobs: &ClusterKnobs, setup: impl FnO
         let wp: *mut World = &mut **world;
         *CLUSTER.lock().unwrap() = Some(Cluster {
             wp: wp as usize, pairs: Vec::new(), seen_regular: regular_no_cloexec(), forked: 0, handles: Vec::new(), exits: exits.clone(),
-            cbs: knobs.worker.command_buffer_size, mcbs: knobs.worker.max_command_buffer_size, log_level: None,
+            cbs: knobs.worker.command_buffer_size, mcbs: knobs.worker.max_command_buffer_size, log_level: None, boot_delays: knobs.boot_delays.clone(),
         });
         ON.store(true, Ordering::SeqCst);
     }
